@@ -1,6 +1,8 @@
 package main
 
 import (
+	"reflect"
+	"strings"
 	"context"
 	"encoding/binary"
 	"encoding/hex"
@@ -261,7 +263,82 @@ func wireMutate(r *wireRun, rounds int) {
 				})
 			})
 			b2.emit(r.tr)
+			// a mutated format (precision, scale, lengths, data type ...) that still parses, followed by
+			// data: the values are produced under the hostile format and must be printable
+			b3 := &mutBatch{level: "data", kind: fmt.Sprintf("FMTDATA%02x", dtok)}
+			tried := 0
+			mutations(r.rng, hb[1:], func(m []byte) {
+				if tried >= 400 {
+					return
+				}
+				mfp, _ := tds.LookupPackage(tds.Token(tok))
+				if st, _ := readPkg(mfp, m); st != "ok" {
+					return
+				}
+				tried++
+				b3.run(append(append([]byte(nil), m...), data...), func() string {
+					p, _ := tds.LookupPackage(tds.Token(dtok))
+					if err := p.(tds.LastPkgAcceptor).LastPkg(mfp); err != nil {
+						return "err"
+					}
+					st, _ := readPkg(p, data)
+					if st == "ok" {
+						_ = p.String()
+						if dfv := reflect.ValueOf(p).Elem().FieldByName("DataFields"); dfv.IsValid() {
+							if dfs, ok := dfv.Interface().([]tds.FieldData); ok {
+								for _, d := range dfs {
+									_ = fmt.Sprint(d.Value())
+									if sv, ok := d.Value().(fmt.Stringer); ok {
+										_ = sv.String() // called directly: fmt hides a panicking String method
+									}
+								}
+							}
+						}
+					}
+					return st
+				})
+			})
+			b3.emit(r.tr)
 		}
+		// DECN / NUMN columns whose format announces impossible precision / scale pairs, followed by values
+		bd := &mutBatch{level: "data", kind: "DECFMT"}
+		for _, ps := range [][2]int{{2, 10}, {0, 0}, {0, 5}, {38, 39}, {39, 0}, {77, 77}, {255, 255}, {1, 255}, {255, 0}, {10, 10}, {38, 38}} {
+			for _, dt := range []int{0x6A, 0x6C} {
+				for _, vlen := range []int{1, 2, 5, 17, 33} {
+					c := fcol{Dt: dt, Name: []int{'d'}, Locale: []int{}, MaxLen: 33, Prec: ps[0], Scale: ps[1],
+						Label: []int{}, Catalogue: []int{}, Schema: []int{}, Table: []int{}, TableName: []int{}}
+					hb := encFcols(tokParamFmt, []fcol{c}, false, false)
+					val := append([]byte{byte(vlen)}, randBytes(r.rng, vlen)...)
+					val[1] &= 1 // sign byte
+					bd.run(append(append([]byte(nil), hb...), val...), func() string {
+						fp, _ := tds.LookupPackage(tds.TDS_PARAMFMT)
+						if st, _ := readPkg(fp, hb[1:]); st != "ok" {
+							return st
+						}
+						p, _ := tds.LookupPackage(tds.TDS_PARAMS)
+						if err := p.(tds.LastPkgAcceptor).LastPkg(fp); err != nil {
+							return "err"
+						}
+						st, _ := readPkg(p, val)
+						if st == "ok" {
+							_ = p.String()
+							if dfv := reflect.ValueOf(p).Elem().FieldByName("DataFields"); dfv.IsValid() {
+								if dfs, ok := dfv.Interface().([]tds.FieldData); ok {
+									for _, d := range dfs {
+										_ = fmt.Sprint(d.Value())
+									if sv, ok := d.Value().(fmt.Stringer); ok {
+										_ = sv.String() // called directly: fmt hides a panicking String method
+									}
+									}
+								}
+							}
+						}
+						return st
+					})
+				}
+			}
+		}
+		bd.emit(r.tr)
 		// BLOB columns (outside the C06 domain, but a parser a server can reach): a hand-built
 		// ROWFMT2 with an INT4 and a BLOB column, and ROW data with chunked blob data
 		for _, blobType := range []int{3, 4, 5, 1, 6} {
@@ -381,6 +458,59 @@ func wireMutate(r *wireRun, rounds int) {
 		}
 		b.emit(r.tr)
 	}
+	// (b2) an environment change with a hostile packet size, then the client sends: the value a server
+	// announces must not make a later send panic or hang
+	be := &mutBatch{level: "channel", kind: "packsize-then-send"}
+	for _, v := range []string{"0", "1", "4", "7", "8", "9", "10", "255", "256", "65535", "65536", "70000", "4294967296", "-1", "-512",
+		"99999999999999999999", "", " 512", "512x", "0x200", "5e2"} {
+		v := v
+		be.run([]byte(v), func() string {
+			mc := newMemConn()
+			conn, err := tds.NewConnWithTransport(context.Background(), mc, newInfo(), false)
+			if err != nil {
+				return "err"
+			}
+			ch, err := conn.NewChannel()
+			if err != nil {
+				return "err"
+			}
+			body := append(encEnvChange([3]string{"\x04", v, "512"}), encDone(tokDone, 0, 0, 0).Bytes...)
+			done := make(chan string, 1)
+			go func() {
+				defer func() {
+					if recover() != nil {
+						done <- "panic"
+					}
+				}()
+				pk := &tds.Packet{Data: body}
+				pk.Header.MsgType = tds.TDS_BUF_RESPONSE
+				pk.Header.Status = tds.TDS_BUFSTAT_EOM
+				pk.Header.Length = uint16(8 + len(body))
+				ch.WritePacket(pk)
+				for {
+					if _, err := ch.NextPackage(context.Background(), false); err != nil {
+						break
+					}
+				}
+				ctx, cancel := context.WithTimeout(context.Background(), 2*time.Second)
+				defer cancel()
+				if err := ch.SendPackage(ctx, &tds.LanguagePackage{Cmd: strings.Repeat("select 1 ", 40)}); err != nil {
+					done <- "err"
+					return
+				}
+				done <- "ok"
+			}()
+			select {
+			case st := <-done:
+				mc.Close()
+				return st
+			case <-time.After(4 * time.Second):
+				mc.Close()
+				return "hang"
+			}
+		})
+	}
+	be.emit(r.tr)
 	// (c) packet level: all header values incl. length < 8, through the real reader and channel
 	b := &mutBatch{level: "packet", kind: "header"}
 	for i := 0; i < 40*rounds; i++ {
